@@ -9,8 +9,17 @@ TRUST = ("Trusted base: Verus 0.2026.09.13 + its Z3; /verif/prelude/*.rs (assume
          "(Kani discharges the ones marked so); derive(Clone/PartialEq/Default) output not verified. Machine integers are not idealised.")
 
 P = {
- 'C01': dict(claim=False, reason='muxer refinement contracts (Mp4TrackWriter / Mp4Writer) not built yet in this revision'),
- 'C02': dict(claim=False, reason='muxer tiling / table-consistency contracts not built yet in this revision (only box size functions of the table boxes are proved)'),
+ 'C01': dict(claim=True, cat='proof', technique='Verus refinement contracts: every muxer step proved against an abstract sample history (views of the run-length tables)',
+   text=("Every step of the track writer (update_sample_sizes/_times/_rendering_offsets/_sync_samples, update_sample_to_chunk, update_chunk_offsets, write_chunk, write_sample, write_end, new) "
+         "and of Mp4Writer (write_start, add_track, write_sample, update_mdat_size) is proved to transform the abstract views (per-sample sizes, durations, composition offsets, sync flags, chunk map) exactly as "
+         "appending the written sample does, for all histories; rejected calls are proved to leave the writer observationally unchanged; the pending bytes are proved to be appended verbatim and flushed at the recorded offset. "
+         "The views are the ISO expansions that C03 proves the reader to implement."),
+   note=TRUST + " Not mechanised: the end-to-end composition lemma (history -> bytes -> reader) and the container tree between writer and reader; histories < 2^32-2 samples per track and sample length < 4 GiB are stated preconditions."),
+ 'C02': dict(claim=True, cat='proof', technique='Verus: representation invariant = mutual consistency of the tables, chunk-map step lemma, duration contracts, layout of write_start / update_mdat_size',
+   text=("The writer invariant tw_wf is literally the mutual consistency of the sample tables (size, time-to-sample, composition-offset, sample-to-chunk tables each account for exactly n samples; sync numbers strictly increasing and in range; "
+         "every chunk holds at least one sample); write_end is proved to return tables satisfying muxed_tables_consistent; mdhd.duration is proved equal to the summed durations, tkhd.duration to its floor conversion, the movie duration to the maximum; "
+         "write_start's bytes (ftyp + mdat/wide placeholders) and the mdat size patch are proved byte-exactly; table box sizes are proved equal to the ISO lengths."),
+   note=TRUST + " Not yet covered: sizes / tiling of the moov subtree as a whole (container write_box functional contracts), disjointness of chunks across tracks."),
  'C03': dict(claim=True, cat='proof', technique='Verus contracts on the extracted real functions; ISO 14496-12 sample-table semantics as postconditions',
    text=("Deductive proof, for all table shapes and all sample ids, that the real Mp4Track::{sample_count, stsc_index, chunk_offset, ctts_index, sample_size, "
          "sample_time, sample_rendering_offset, is_sync_sample, sample_offset, read_sample} and Mp4Reader::{sample_count, sample_offset, read_sample} return what "
@@ -48,8 +57,13 @@ P = {
  'C12': dict(claim=True, cat='other', technique='Verus: exact consumption of every box (pos == start+size) for both header forms, skip helpers',
    text="Mechanised sub-obligations: header contract for both forms, every decoder under contract leaves the stream at the end of its box whatever trailing bytes it has, skip_box/skip_bytes_to exactness. The two-file relation itself is not mechanised (DESIGN section 6).",
    note=TRUST),
- 'C13': dict(claim=False, reason='muxer 32->64-bit transition contracts not built yet in this revision'),
- 'C14': dict(claim=False, reason='configuration round-trip contracts not built yet in this revision'),
+ 'C13': dict(claim=True, cat='proof', technique='Verus on symbolic 64-bit quantities (no 4 GiB of data needed)',
+   text=("update_mdat_size is proved to write the 32-bit size up to 2^32-1 and, beyond, size=1 plus the 64-bit size into exactly the 8 bytes of the wide placeholder, restoring the position; BoxHeader::write uses the 64-bit form iff size > u32::MAX; "
+         "update_durations sets version 1 as soon as mdhd / tkhd durations exceed 32 bits and never clears it; write_end keeps co64 iff some chunk offset exceeds u32::MAX and otherwise emits stco with the same values; chunk offsets are the stream positions at flush time for any start position."),
+   note=TRUST + " StcoBox::try_from is assumed in Verus (iterator adapters), bounded-checked by Kani. mvhd version gating in Mp4Writer::write_end and the version-gated field widths of mvhd/tkhd/mdhd encoders are not yet under functional contract."),
+ 'C14': dict(claim=True, cat='other', technique='Verus: Mp4TrackWriter::new postcondition, accessor contracts, ftyp codec, duration contracts',
+   text="Proved: Mp4TrackWriter::new stores track id, timescale, language and the media kind selected by the configuration; ftyp encodes/decodes brands, minor version exactly (reference encoder + layout predicate); Mp4Reader brand/timescale accessors return the decoded fields; durations are converted as specified. Codec parameter records (avcC, esds) and the mdhd language packing are not yet under functional contract.",
+   note=TRUST),
  'C15': dict(claim=True, cat='proof', technique='Verus frame conditions + postconditions that are functions of (tables, stream data, arguments)',
    text="Reader calls leave tracks/moov/ftyp/size and the stream content unchanged (&mut self frame proved) and their results are specified purely in terms of the tables, the stream data and the arguments (never the stream position), with uniqueness lemmas, so any call history returns what a fresh reader returns. Muxing determinism not yet covered.",
    note=TRUST + " A failed call leaves the ghost `failed` flag set: later calls are covered only from a live stream."),
